@@ -881,7 +881,7 @@ func c13Numbers(r *run.Run) {
 	// (1/1005, 1/992: a font matrix for 1005 or 992 units per em is close to the default 0.001 but not equal to it)
 	reals := []float64{0.5, 0.001, 0.039625, 1e-5, 123456789, 1.23456789e-20, -7.5e12, 0.1, -0.25, 3.0e-3, 1e10, 1e300, -2.5e-300, 3e-310, 5e-324, 1.0 / 1005, 1.0 / 992, 0.001000001}
 	unit := []float64{0.5, 0.001, 0.25, 1e-5, 0.123456789, 1, 0.0397, 0.0396255, 0.03962501} // BlueScale is clamped to [0,1] on reading
-	angles := []float64{0.5, -12.25, 89.999, -0.001, 7.123456789}
+	angles := []float64{0.5, -12.25, 89.999, -0.001, 7.123456789, 1e-7, 180, -179.5}
 	r.Explore(explore.Config{Name: "C13.numbers"},
 		"DICT numbers through the private dictionary, FontInfo and font matrix: integers at every size-class boundary +-1 (BlueShift/BlueFuzz), reals {0.5,0.001,0.039625,1e-5,123456789,1.23456789e-20,-7.5e12,...} (BlueScale, StdHW, ItalicAngle, underline, matrix entries): the value read back and the value an independent DICT parser finds equal the value written (reals to 9 significant digits)",
 		func(c *explore.Ctx) {
